@@ -158,6 +158,7 @@ class Elab:
         self.hasattrs = dict(hasattrs or {})       # "path.attr" -> bool
         self.design = Design()
         self.cls_dyn = {}                          # id(ClassV) -> {attr: value} set at elaboration time
+        self.stubs = {}                            # 'Class.method' -> callable(elab, func, args, kwargs) -> V  (replaces the method body)
         self.cfg = []                              # configuration context stack [(key, polarity, term)]
         self.depth = 0                             # inlining depth inside the current instance method
         self.inst_stack = []                       # [Obj]
@@ -563,6 +564,13 @@ class Elab:
                         return Const(_pyop(op, a.v, b.v))
             except Exception:
                 pass
+        # operator methods of repository classes (e.g. Timing.__add__)
+        dn = {"+": "__add__", "-": "__sub__", "*": "__mul__"}.get(op)
+        if dn and isinstance(a, Obj) and a.kind == "inst" and isinstance(getattr(a, "clsv", None), ClassV):
+            fm = self.find_method(a.clsv, dn)
+            if fm is not None:
+                fn = Func(fm[1], fm[0].env, fm[0].name + "." + dn, selfobj=a, clsv=fm[0], module=fm[0].module)
+                return self.call_func(fn, [b], {})
         if op == "+":
             if isinstance(a, ListV) and isinstance(b, ListV):
                 return ListV(a.items + b.items, a.tup and b.tup)
@@ -1641,6 +1649,9 @@ class Elab:
             fenv.set(a.kwarg.arg, d)
 
     def call_func(self, f, args, kwargs, n=None):
+        st = self.stubs.get(f.name)
+        if st is not None:
+            return st(self, f, list(args), dict(kwargs))
         if self.depth_total() > self.MAX_DEPTH:
             self.unk("depth:" + f.name, n)
             return Op("call", (Sym(f.name),) + tuple(args))
@@ -2102,6 +2113,20 @@ class Elab:
         new = self.design.leaves[nleaves:]
         for k, v0 in before.items():
             v1 = env.vars.get(k)
+            if isinstance(v0, ListV) and isinstance(v1, ListV) and v1 is not v0 and len(v0.items) == len(v1.items) and v0.items and count is not None:
+                # a list of signals delayed together:  delayed = [Signal.like(x) for x in xs]; sync += [n.eq(o) ...]; xs = delayed
+                outs = []
+                for x0, x1 in zip(v0.items, v1.items):
+                    regs = [lf for lf in new if lf.kind == "assign" and lf.target is x1 and lf.domain.startswith("sync")
+                            and not lf.guards and (lf.value is x0 or veq(lf.value, x0))] if isinstance(x1, Obj) and x1.cls == "Signal" else []
+                    if not regs:
+                        outs = None
+                        break
+                    regs[0].extra = ("delaychain", x0, count)
+                    outs.append(Op("delay", (x0, count, Const(regs[0].domain))))
+                if outs is not None:
+                    env.vars[k] = ListV(outs, v1.tup)
+                    continue
             if v1 is v0 or not isinstance(v1, Obj) or v1.cls != "Signal":
                 continue
             # loop-carried variable now bound to a Signal created in the body
@@ -2181,11 +2206,12 @@ def elaborate(repo, modname, clsname, args=None, kwargs=None, overrides=None, ha
     return el.design, el
 
 
-def eval_method(repo, modname, clsname, method, args=None, kwargs=None, overrides=None, hasattrs=None, init=False):
+def eval_method(repo, modname, clsname, method, args=None, kwargs=None, overrides=None, hasattrs=None, init=False, stubs=None):
     """Symbolically evaluate one method of a repository class on a fresh symbolic instance `self`
     (its __init__ is NOT run: attributes are opaque `self.x` symbols - unless init=True, in which case __init__ runs first
     with every formal parameter `p` bound to the symbol `init.p`). Returns (value, Elab)."""
     el = Elab(repo, overrides, hasattrs)
+    el.stubs.update(stubs or {})
     env = el.modenv(modname)
     if env is None:
         raise KeyError("module %s not found" % modname)
